@@ -39,12 +39,13 @@ PROPS = {f"C{n:02d}": f"vp.props.c{n:02d}" for n in range(1, 21)}
 # --------------------------------------------------------------------------- known findings
 def load_known(prop_id: str) -> tuple[dict[str, dict], list[dict]]:
     """Parse /verif/known_findings.txt. Returns ({slug: entry} for `finding:` lines, [entries] for `fixed:`)."""
-    path = VERIF / "known_findings.txt"
     findings: dict[str, dict] = {}
     fixed: list[dict] = []
-    if not path.exists():
-        return findings, fixed
-    for line in path.read_text().splitlines():
+    lines: list[str] = []
+    for path in [VERIF / "known_findings.txt", *sorted((VERIF / "known_findings.d").glob("*.txt"))]:
+        if path.exists():
+            lines += path.read_text().splitlines()
+    for line in lines:
         line = line.strip()
         if not line or line.startswith("#"):
             continue
